@@ -848,7 +848,10 @@ def run(idx: ProgramIndex, rep: Report, tier: str):
     from .common_alias import aliasing_obligations
     rep.rule("C11-6", "the caller's batch indices and computed event index tensors never share a subscript (advanced indices in one subscript are zipped element-wise)")
     rep.rule("C11-4", "no in-place aliasing hazard in MultitaskMultivariateNormal (storage/version domain)")
-    aliasing_obligations(idx, rep, "C11-4", list(idx.cls(MOD, "MultitaskMultivariateNormal").methods.values()), 10, "MultitaskMultivariateNormal methods interpreted")
+    helpers = [f for f in idx.module(MOD).functions.values() if f.name.startswith("_normalize")]
+    if len(helpers) < 2:
+        raise AnalysisError("C11-4: the index normalisers of the multitask distribution vanished (anchor)")
+    aliasing_obligations(idx, rep, "C11-4", list(idx.cls(MOD, "MultitaskMultivariateNormal").methods.values()) + helpers, 12, "MultitaskMultivariateNormal methods and index normalisers interpreted", helper_functions=True)
 
 
 # ---- C11-7 ---------------------------------------------------------------------------------------------------------
